@@ -105,4 +105,5 @@ func corr(seed uint64, n int, t tools) {
 	corrRest(seed, n, t, &id)
 	corrCombine(seed, n/2+10, t, &id)
 	corrInits(seed, n/3+10, t, &id)
+	corrMuxOpt(seed, n+50, &id)
 }
